@@ -1,6 +1,1416 @@
-//! C28 — not implemented yet.
-use mc_core::Ctx;
+//! C28 — addresses and identifiers have lossless, network-bound text forms.
+//!
+//! Bounded-exhaustive input enumeration (shape I) against three independent references written here:
+//!   * `bech32m_ref`   — Bech32m from BIP-350 (checks "encodes to Bech32m text", crafts foreign texts),
+//!   * `ENTS`          — the entity-type table (byte, address class, HRP class) from REP-60 / entity_type.rs docs,
+//!   * `ref_parse_local_id` / `ref_display` — the documented text grammar of non-fungible local ids.
+//!
+//! What the oracles demand is only what the statement says:
+//!   A1 encode on N -> valid Bech32m of the same bytes, HRP ends with N's hrp suffix; decode on N returns the
+//!      bytes; decode on every other network fails; typed addresses accept exactly their class.
+//!   A2 any text the decoder of N accepts is exactly what the encoder of N prints for the decoded bytes
+//!      (modulo all-upper-case, which Bech32 permits) — so foreign HRP / foreign entity byte / Bech32 (non-m) /
+//!      unknown entity byte / substituted characters are rejected.
+//!   L1 local id text: accepted <=> it is the documented text of a valid id (hex in upper case: informational);
+//!      integers only in canonical decimal; never panics; text->id->text and id->SBOR->id are identities.
+//!   G1 global id text `resource:local` likewise, network-bound through the resource address.
+use crate::bech32m_ref as b32;
+use mc_core::{catch, gen, par_for, par_range, Ctx, Level, Local};
+use radix_common::prelude::*;
+use serde_json::{json, Map, Value};
+use std::collections::{BTreeSet, HashSet};
+use std::str::FromStr;
+use std::sync::Mutex;
 
-pub fn run(_ctx: Ctx) -> ! {
-    mc_core::machinery_error("C28: not implemented")
+// ------------------------------------------------------------------------------------------------
+// reference: entity types (REP-60; doc comments of radix-common/src/types/entity_type.rs)
+// ------------------------------------------------------------------------------------------------
+
+#[derive(Clone, Copy, PartialEq, Eq, Debug)]
+enum Cls {
+    Package,
+    Resource,
+    Component,
+    Internal,
+}
+
+struct Ent {
+    byte: u8,
+    name: &'static str,
+    cls: Cls,
+    hrp: &'static str,
+}
+
+const fn e(byte: u8, name: &'static str, cls: Cls, hrp: &'static str) -> Ent {
+    Ent { byte, name, cls, hrp }
+}
+
+const ENTS: [Ent; 22] = [
+    e(13, "GlobalPackage", Cls::Package, "package"),
+    e(134, "GlobalConsensusManager", Cls::Component, "consensusmanager"),
+    e(131, "GlobalValidator", Cls::Component, "validator"),
+    e(130, "GlobalTransactionTracker", Cls::Component, "transactiontracker"),
+    e(192, "GlobalGenericComponent", Cls::Component, "component"),
+    e(193, "GlobalAccount", Cls::Component, "account"),
+    e(194, "GlobalIdentity", Cls::Component, "identity"),
+    e(195, "GlobalAccessController", Cls::Component, "accesscontroller"),
+    e(196, "GlobalOneResourcePool", Cls::Component, "pool"),
+    e(197, "GlobalTwoResourcePool", Cls::Component, "pool"),
+    e(198, "GlobalMultiResourcePool", Cls::Component, "pool"),
+    e(104, "GlobalAccountLocker", Cls::Component, "locker"),
+    e(209, "GlobalPreallocatedSecp256k1Account", Cls::Component, "account"),
+    e(210, "GlobalPreallocatedSecp256k1Identity", Cls::Component, "identity"),
+    e(81, "GlobalPreallocatedEd25519Account", Cls::Component, "account"),
+    e(82, "GlobalPreallocatedEd25519Identity", Cls::Component, "identity"),
+    e(93, "GlobalFungibleResourceManager", Cls::Resource, "resource"),
+    e(88, "InternalFungibleVault", Cls::Internal, "internal_vault"),
+    e(154, "GlobalNonFungibleResourceManager", Cls::Resource, "resource"),
+    e(152, "InternalNonFungibleVault", Cls::Internal, "internal_vault"),
+    e(248, "InternalGenericComponent", Cls::Internal, "internal_component"),
+    e(176, "InternalKeyValueStore", Cls::Internal, "internal_keyvaluestore"),
+];
+
+fn ent(b: u8) -> Option<&'static Ent> {
+    ENTS.iter().find(|x| x.byte == b)
+}
+
+/// expected acceptance by (GlobalAddress, InternalAddress, ComponentAddress, ResourceAddress, PackageAddress)
+fn typed_expect(b: u8) -> [bool; 5] {
+    match ent(b).map(|x| x.cls) {
+        None => [false; 5],
+        Some(Cls::Package) => [true, false, false, false, true],
+        Some(Cls::Resource) => [true, false, false, true, false],
+        Some(Cls::Component) => [true, false, true, false, false],
+        Some(Cls::Internal) => [false, true, false, false, false],
+    }
+}
+const TYPED_NAMES: [&str; 5] = ["GlobalAddress", "InternalAddress", "ComponentAddress", "ResourceAddress", "PackageAddress"];
+
+struct Net {
+    def: NetworkDefinition,
+    enc: AddressBech32Encoder,
+    dec: AddressBech32Decoder,
+}
+
+fn networks() -> Vec<Net> {
+    let custom_a = NetworkDefinition { id: 0x21, logical_name: "custom21".into(), hrp_suffix: "tdx_21_".into() };
+    // a suffix that has another network's suffix ("rdx") as a proper prefix
+    let custom_b = NetworkDefinition { id: 99, logical_name: "custom99".into(), hrp_suffix: "rdx2".into() };
+    [
+        NetworkDefinition::mainnet(),
+        NetworkDefinition::stokenet(),
+        NetworkDefinition::simulator(),
+        NetworkDefinition::localnet(),
+        NetworkDefinition::adapanet(),
+        NetworkDefinition::nebunet(),
+        NetworkDefinition::kisharnet(),
+        NetworkDefinition::ansharnet(),
+        NetworkDefinition::zabanet(),
+        custom_a,
+        custom_b,
+    ]
+    .into_iter()
+    .map(|def| Net { enc: AddressBech32Encoder::new(&def), dec: AddressBech32Decoder::new(&def), def })
+    .collect()
+}
+
+fn typed_from_bech32(dec: &AddressBech32Decoder, s: &str) -> [Option<Vec<u8>>; 5] {
+    [
+        GlobalAddress::try_from_bech32(dec, s).map(|a| a.to_vec()),
+        InternalAddress::try_from_bech32(dec, s).map(|a| a.to_vec()),
+        ComponentAddress::try_from_bech32(dec, s).map(|a| a.to_vec()),
+        ResourceAddress::try_from_bech32(dec, s).map(|a| a.to_vec()),
+        PackageAddress::try_from_bech32(dec, s).map(|a| a.to_vec()),
+    ]
+}
+
+fn typed_from_slice(raw: &[u8]) -> [bool; 5] {
+    [
+        GlobalAddress::try_from(raw).is_ok(),
+        InternalAddress::try_from(raw).is_ok(),
+        ComponentAddress::try_from(raw).is_ok(),
+        ResourceAddress::try_from(raw).is_ok(),
+        PackageAddress::try_from(raw).is_ok(),
+    ]
+}
+
+fn typed_display(raw: &[u8; 30], enc: &AddressBech32Encoder) -> [Option<String>; 5] {
+    [
+        GlobalAddress::try_from(*raw).ok().map(|a| a.to_string(enc)),
+        InternalAddress::try_from(*raw).ok().map(|a| a.to_string(enc)),
+        ComponentAddress::try_from(*raw).ok().map(|a| a.to_string(enc)),
+        ResourceAddress::try_from(*raw).ok().map(|a| a.to_string(enc)),
+        PackageAddress::try_from(*raw).ok().map(|a| a.to_string(enc)),
+    ]
+}
+
+fn raw_of(first: u8, body: &[u8; 29]) -> [u8; 30] {
+    let mut r = [0u8; 30];
+    r[0] = first;
+    r[1..].copy_from_slice(body);
+    r
+}
+
+// ------------------------------------------------------------------------------------------------
+// A1: one address on one network
+// ------------------------------------------------------------------------------------------------
+
+fn check_address(nets: &[Net], ni: usize, raw: &[u8; 30], l: &mut Local) {
+    l.eval();
+    let net = &nets[ni];
+    let case = || json!({"kind": "address", "network": ni, "network_name": net.def.logical_name, "raw": mc_core::hex(raw)});
+    let valid_by_code = EntityType::from_repr(raw[0]).is_some();
+    let encoded = match catch(|| net.enc.encode(raw)) {
+        Ok(r) => r,
+        Err(p) => {
+            l.violation("address-encode-panic", format!("encode panicked: {p}"), case());
+            return;
+        }
+    };
+    if !valid_by_code {
+        match encoded {
+            Err(_) => l.class("encode-rejects-unknown-entity-byte"),
+            Ok(_) => l.info("encode-accepts-unknown-entity-byte"),
+        }
+        if ent(raw[0]).is_some() {
+            l.info("reference-entity-type-unknown-to-code");
+        }
+        return;
+    }
+    let Some(en) = ent(raw[0]) else {
+        l.info("code-entity-type-unknown-to-reference");
+        return;
+    };
+    let text = match encoded {
+        Ok(t) => t,
+        Err(err) => {
+            l.violation("address-encode-fails", format!("{} on {}: encode failed: {err:?}", en.name, net.def.logical_name), case());
+            return;
+        }
+    };
+    // independent Bech32m reference
+    match b32::decode_lower(&text) {
+        Some(d) if d.constant == b32::BECH32M_CONST && d.data == raw => {
+            let suffix: &str = net.def.hrp_suffix.as_ref();
+            if !d.hrp.ends_with(suffix) {
+                l.violation("address-hrp-not-network-bound", format!("hrp {:?} does not end with network suffix {suffix:?}", d.hrp), case());
+            } else if d.hrp != format!("{}_{}", en.hrp, suffix) {
+                l.info("hrp-differs-from-reference-table");
+            }
+            if b32::encode_m(&d.hrp, raw) != text {
+                l.violation("address-not-canonical-bech32m", format!("{text} is not the canonical Bech32m text of its hrp+data"), case());
+            }
+        }
+        other => {
+            l.violation("address-not-bech32m", format!("{} on {}: encoded text {text:?} is not Bech32m of the address bytes (reference decode: {other:?})", en.name, net.def.logical_name), case());
+        }
+    }
+    // same network: decodes back
+    match catch(|| net.dec.validate_and_decode(&text)) {
+        Ok(Ok((et, data))) if data == raw && et as u8 == raw[0] => l.class("address-roundtrip-ok"),
+        other => {
+            l.violation("address-roundtrip", format!("{} on {}: decode(encode(x)) = {other:?}", en.name, net.def.logical_name), case());
+        }
+    }
+    // typed addresses on the same network: exactly their class; display equals the encoder's text
+    let exp = typed_expect(raw[0]);
+    let got = typed_from_bech32(&net.dec, &text);
+    let shown = typed_display(raw, &net.enc);
+    for k in 0..5 {
+        match (&got[k], exp[k]) {
+            (Some(b), true) if b.as_slice() == raw => {
+                if shown[k].as_deref() != Some(text.as_str()) {
+                    l.violation(format!("typed-display:{}", TYPED_NAMES[k]), format!("{}::to_string = {:?}, encoder text = {text}", TYPED_NAMES[k], shown[k]), case());
+                }
+            }
+            (None, false) => {}
+            (g, ex) => {
+                l.violation(
+                    format!("typed-class:{}", TYPED_NAMES[k]),
+                    format!("{}::try_from_bech32({text}) = {:?}, expected accept={ex} for {}", TYPED_NAMES[k], g.as_ref().map(|b| mc_core::hex(b)), en.name),
+                    case(),
+                );
+            }
+        }
+    }
+    // every other network: rejected (low level and typed)
+    for (mi, other) in nets.iter().enumerate() {
+        if mi == ni {
+            continue;
+        }
+        l.eval();
+        match catch(|| other.dec.validate_and_decode(&text)) {
+            Ok(Err(_)) => l.class("other-network-rejected"),
+            r => {
+                l.violation(
+                    "address-accepted-on-other-network",
+                    format!("{text} (encoded for {}) decoded on {}: {r:?}", net.def.logical_name, other.def.logical_name),
+                    json!({"kind": "address", "network": ni, "other_network": mi, "raw": mc_core::hex(raw)}),
+                );
+            }
+        }
+        if typed_from_bech32(&other.dec, &text).iter().any(|x| x.is_some()) {
+            l.violation(
+                "typed-address-accepted-on-other-network",
+                format!("{text} (encoded for {}) parsed as a typed address on {}", net.def.logical_name, other.def.logical_name),
+                json!({"kind": "address", "network": ni, "other_network": mi, "raw": mc_core::hex(raw)}),
+            );
+        }
+    }
+}
+
+// ------------------------------------------------------------------------------------------------
+// A2: any text on one network. `orig` = the valid address the text was derived from by substitution.
+// ------------------------------------------------------------------------------------------------
+
+#[derive(PartialEq)]
+enum TextOutcome {
+    Rejected,
+    Accepted,
+}
+
+fn check_text_on(nets: &[Net], ni: usize, text: &str, subst_of: Option<&[u8; 30]>, must_reject: Option<&str>, l: &mut Local) -> TextOutcome {
+    l.eval();
+    let net = &nets[ni];
+    let case = || json!({"kind": "address-text", "network": ni, "network_name": net.def.logical_name, "text": text, "substitution_of": subst_of.map(|r| mc_core::hex(r)), "must_reject": must_reject});
+    let r = match catch(|| net.dec.validate_and_decode(text)) {
+        Ok(r) => r,
+        Err(p) => {
+            l.violation("address-decode-panic", format!("decode of {text:?} panicked: {p} at {}", mc_core::last_panic_location()), case());
+            return TextOutcome::Rejected;
+        }
+    };
+    let typed = typed_from_bech32(&net.dec, text);
+    match r {
+        Err(_) => {
+            if typed.iter().any(|x| x.is_some()) {
+                l.violation("typed-accepts-what-decoder-rejects", format!("{text:?}"), case());
+            }
+            TextOutcome::Rejected
+        }
+        Ok((et, data)) => {
+            if let Some(why) = must_reject {
+                l.violation(format!("address-accepts:{why}"), format!("{text:?} accepted on {} as {et:?} {}", net.def.logical_name, mc_core::hex(&data)), case());
+                return TextOutcome::Accepted;
+            }
+            let lower = text.to_ascii_lowercase();
+            let is_upper_variant = lower != text;
+            // canonical: exactly what the encoder of this network prints for these bytes
+            match catch(|| net.enc.encode(&data)) {
+                Ok(Ok(t)) if t == lower => {}
+                other => {
+                    l.violation("address-decode-noncanonical", format!("{text:?} accepted on {} as {}, but encode(bytes) = {other:?}", net.def.logical_name, mc_core::hex(&data)), case());
+                }
+            }
+            match b32::decode_lower(&lower) {
+                Some(d) if d.constant == b32::BECH32M_CONST && d.data == data => {}
+                other => {
+                    l.violation("address-accepts-non-bech32m", format!("{text:?} accepted but the reference Bech32m decoder says {other:?}"), case());
+                }
+            }
+            if data.first() != Some(&(et as u8)) {
+                l.violation("address-entity-type-mismatch", format!("{text:?}: reported entity type {et:?} but first byte {:?}", data.first()), case());
+            }
+            if let Some(orig) = subst_of {
+                if data != orig {
+                    l.violation("address-substitution-accepted", format!("{text:?} is a character substitution of the text of {} but decodes to {}", mc_core::hex(orig), mc_core::hex(&data)), case());
+                }
+            }
+            // typed: exactly by class, and only 30-byte payloads
+            let exp = if data.len() == 30 { typed_expect(data[0]) } else { [false; 5] };
+            for k in 0..5 {
+                if typed[k].is_some() != exp[k] || typed[k].as_ref().map(|b| b != &data).unwrap_or(false) {
+                    l.violation(format!("typed-class:{}", TYPED_NAMES[k]), format!("{}::try_from_bech32({text:?}) = {:?} for decoded bytes {}", TYPED_NAMES[k], typed[k].as_ref().map(|b| mc_core::hex(b)), mc_core::hex(&data)), case());
+                }
+            }
+            if data.len() != 30 {
+                l.info("low-level-decoder-accepts-payload-length!=30");
+            }
+            if is_upper_variant {
+                l.info("all-upper-case-text-accepted");
+            }
+            TextOutcome::Accepted
+        }
+    }
+}
+
+/// char-level single-point mutations: substitute / insert / delete / duplicate / prefixes / suffixes
+fn char_mutations(text: &str, alphabet: &[char], f: &mut impl FnMut(&str, bool)) {
+    let cs: Vec<char> = text.chars().collect();
+    let mut s = String::new();
+    let mut emit = |v: &[char], subst: bool, f: &mut dyn FnMut(&str, bool)| {
+        s.clear();
+        s.extend(v.iter());
+        f(&s, subst);
+    };
+    let mut buf = cs.clone();
+    for i in 0..cs.len() {
+        for &a in alphabet {
+            if a != cs[i] {
+                buf[i] = a;
+                emit(&buf, true, f);
+            }
+        }
+        // case flip
+        let flipped = if cs[i].is_ascii_lowercase() { cs[i].to_ascii_uppercase() } else { cs[i].to_ascii_lowercase() };
+        if flipped != cs[i] && !alphabet.contains(&flipped) {
+            buf[i] = flipped;
+            emit(&buf, true, f);
+        }
+        buf[i] = cs[i];
+    }
+    for i in 0..=cs.len() {
+        for &a in alphabet {
+            let mut v = cs.clone();
+            v.insert(i, a);
+            emit(&v, false, f);
+        }
+    }
+    for i in 0..cs.len() {
+        let mut v = cs.clone();
+        v.remove(i);
+        emit(&v, false, f);
+        let mut v = cs.clone();
+        v.insert(i, cs[i]);
+        emit(&v, false, f);
+        emit(&cs[..i], false, f);
+        if i > 0 {
+            emit(&cs[i..], false, f);
+        }
+    }
+}
+
+// ------------------------------------------------------------------------------------------------
+// reference: non-fungible local id text grammar (doc comments of NonFungibleLocalId + Display)
+// ------------------------------------------------------------------------------------------------
+
+#[derive(Clone, PartialEq, Eq, Debug, PartialOrd, Ord)]
+enum RefId {
+    Str(String),
+    Int(u64),
+    Bytes(Vec<u8>),
+    Ruid([u8; 32]),
+}
+
+#[derive(Debug, PartialEq)]
+enum RefParse {
+    /// canonical text of a valid id
+    Accept(RefId),
+    /// hex digits in upper case: the statement does not say; either outcome tolerated, value fixed
+    Lenient(RefId),
+    /// (reason, outcome-class label)
+    Reject(&'static str, &'static str),
+}
+
+macro_rules! rej {
+    ($why:literal) => {
+        RefParse::Reject($why, concat!("id-rejected:", $why))
+    };
+}
+
+fn hex_lower(b: &[u8]) -> String {
+    mc_core::hex(b)
+}
+
+fn ref_display(id: &RefId) -> String {
+    match id {
+        RefId::Str(s) => format!("<{s}>"),
+        RefId::Int(n) => format!("#{n}#"),
+        RefId::Bytes(b) => format!("[{}]", hex_lower(b)),
+        RefId::Ruid(b) => {
+            let h = hex_lower(b);
+            format!("{{{}-{}-{}-{}}}", &h[0..16], &h[16..32], &h[32..48], &h[48..64])
+        }
+    }
+}
+
+fn ref_content_valid(id: &RefId) -> bool {
+    match id {
+        RefId::Str(s) => (1..=64).contains(&s.len()) && s.bytes().all(|b| b.is_ascii_alphanumeric() || b == b'_'),
+        RefId::Bytes(b) => (1..=64).contains(&b.len()),
+        RefId::Int(_) | RefId::Ruid(_) => true,
+    }
+}
+
+fn ref_parse_local_id(s: &str) -> RefParse {
+    let cs: Vec<char> = s.chars().collect();
+    if cs.len() < 2 {
+        return rej!("too-short");
+    }
+    let (first, last) = (cs[0], cs[cs.len() - 1]);
+    let inner = &cs[1..cs.len() - 1];
+    let is_hex = |c: &char| c.is_ascii_digit() || ('a'..='f').contains(c) || ('A'..='F').contains(c);
+    match (first, last) {
+        ('<', '>') => {
+            if inner.is_empty() || inner.len() > 64 {
+                return rej!("string-length");
+            }
+            if !inner.iter().all(|c| c.is_ascii_alphanumeric() || *c == '_') {
+                return rej!("string-char");
+            }
+            RefParse::Accept(RefId::Str(inner.iter().collect()))
+        }
+        ('#', '#') => {
+            if inner.is_empty() {
+                return rej!("integer-empty");
+            }
+            if !inner.iter().all(|c| c.is_ascii_digit()) {
+                return rej!("integer-non-digit");
+            }
+            if inner.len() > 1 && inner[0] == '0' {
+                return rej!("integer-leading-zero");
+            }
+            if inner.len() > 20 {
+                return rej!("integer-range");
+            }
+            let mut v: u128 = 0;
+            for c in inner {
+                v = v * 10 + (*c as u128 - '0' as u128);
+            }
+            if v > u64::MAX as u128 {
+                return rej!("integer-range");
+            }
+            RefParse::Accept(RefId::Int(v as u64))
+        }
+        ('[', ']') => {
+            if inner.is_empty() || inner.len() % 2 != 0 || inner.len() > 128 || !inner.iter().all(is_hex) {
+                return rej!("bytes");
+            }
+            let txt: String = inner.iter().collect();
+            let bytes = crate::unhex_strict(&txt).unwrap();
+            if inner.iter().any(|c| c.is_ascii_uppercase()) {
+                RefParse::Lenient(RefId::Bytes(bytes))
+            } else {
+                RefParse::Accept(RefId::Bytes(bytes))
+            }
+        }
+        ('{', '}') => {
+            if inner.len() != 67 {
+                return rej!("ruid-length");
+            }
+            let mut hex = String::new();
+            for (i, c) in inner.iter().enumerate() {
+                if i == 16 || i == 33 || i == 50 {
+                    if *c != '-' {
+                        return rej!("ruid-hyphen");
+                    }
+                } else if is_hex(c) {
+                    hex.push(*c);
+                } else {
+                    return rej!("ruid-char");
+                }
+            }
+            let b: [u8; 32] = crate::unhex_strict(&hex).unwrap().try_into().unwrap();
+            if hex.chars().any(|c| c.is_ascii_uppercase()) {
+                RefParse::Lenient(RefId::Ruid(b))
+            } else {
+                RefParse::Accept(RefId::Ruid(b))
+            }
+        }
+        _ => rej!("unknown-brackets"),
+    }
+}
+
+fn to_ref(x: &NonFungibleLocalId) -> RefId {
+    match x {
+        NonFungibleLocalId::String(v) => RefId::Str(v.value().to_string()),
+        NonFungibleLocalId::Integer(v) => RefId::Int(v.value()),
+        NonFungibleLocalId::Bytes(v) => RefId::Bytes(v.value().to_vec()),
+        NonFungibleLocalId::RUID(v) => RefId::Ruid(*v.value()),
+    }
+}
+
+fn kind_of(r: &RefId) -> &'static str {
+    match r {
+        RefId::Str(_) => "string",
+        RefId::Int(_) => "integer",
+        RefId::Bytes(_) => "bytes",
+        RefId::Ruid(_) => "ruid",
+    }
+}
+
+/// Distinct accepted texts (sharded set of 128-bit fingerprints).
+struct Acc {
+    accepted_texts: Vec<Mutex<HashSet<[u8; 16]>>>,
+}
+
+impl Acc {
+    fn new() -> Acc {
+        Acc { accepted_texts: (0..256).map(|_| Mutex::new(HashSet::new())).collect() }
+    }
+    fn accept(&self, s: &str) {
+        let fp: [u8; 16] = mc_core::fp128(s.as_bytes()).try_into().unwrap();
+        if let Ok(mut g) = self.accepted_texts[fp[0] as usize].lock() {
+            g.insert(fp);
+        }
+    }
+    fn distinct_accepted(&self) -> u64 {
+        self.accepted_texts.iter().map(|m| m.lock().unwrap().len() as u64).sum()
+    }
+}
+
+/// Everything demanded of an id value the code produced: content valid, text and SBOR round trips.
+fn check_id_value(x: &NonFungibleLocalId, l: &mut Local, case: &dyn Fn() -> Value) -> RefId {
+    let r = to_ref(x);
+    if !ref_content_valid(&r) {
+        l.violation(format!("local-id-invalid-content:{}", kind_of(&r)), format!("the code produced an id whose content is not valid: {r:?}"), case());
+    }
+    match catch(|| x.to_string()) {
+        Ok(shown) => {
+            if shown != ref_display(&r) {
+                l.violation(format!("local-id-display:{}", kind_of(&r)), format!("to_string = {shown:?}, documented form = {:?}", ref_display(&r)), case());
+            }
+            match catch(|| NonFungibleLocalId::from_str(&shown)) {
+                Ok(Ok(y)) if &y == x => {}
+                other => {
+                    l.violation(format!("local-id-text-roundtrip:{}", kind_of(&r)), format!("from_str(to_string(id)) = {other:?} for id {r:?}"), case());
+                }
+            }
+        }
+        Err(p) => l.violation("local-id-display-panic", format!("to_string panicked: {p}"), case()),
+    }
+    match catch(|| scrypto_encode(x).map(|b| (scrypto_decode::<NonFungibleLocalId>(&b), b))) {
+        Ok(Ok((Ok(y), _))) if &y == x => {}
+        other => {
+            l.violation(format!("local-id-sbor-roundtrip:{}", kind_of(&r)), format!("scrypto round trip of {r:?} = {:?}", other.map(|o| o.map(|p| p.0))), case());
+        }
+    }
+    match catch(|| manifest_encode(x).map(|b| manifest_decode::<NonFungibleLocalId>(&b))) {
+        Ok(Ok(Ok(y))) if &y == x => {}
+        other => {
+            l.violation(format!("local-id-manifest-sbor-roundtrip:{}", kind_of(&r)), format!("manifest round trip of {r:?} = {other:?}"), case());
+        }
+    }
+    r
+}
+
+fn check_local_id_text(s: &str, l: &mut Local, acc: &Acc) {
+    l.eval();
+    let case = || json!({"kind": "local-id-text", "text": s});
+    let expect = ref_parse_local_id(s);
+    let real = match catch(|| NonFungibleLocalId::from_str(s)) {
+        Ok(r) => r,
+        Err(p) => {
+            l.violation(format!("local-id-parse-panic@{}", mc_core::last_panic_location()), format!("from_str({s:?}) panicked: {p}"), case());
+            return;
+        }
+    };
+    match (&expect, &real) {
+        (RefParse::Reject(_, label), Err(_)) => {
+            l.class(label);
+        }
+        (RefParse::Reject(why, _), Ok(x)) => {
+            let r = to_ref(x);
+            l.violation(format!("local-id-accepts-invalid:{why}"), format!("from_str({s:?}) = Ok({r:?}) but the text is not the text of a valid id ({why})"), case());
+        }
+        (RefParse::Accept(id), Ok(x)) | (RefParse::Lenient(id), Ok(x)) => {
+            let r = check_id_value(x, l, &case);
+            if &r != id {
+                l.violation(format!("local-id-wrong-value:{}", kind_of(id)), format!("from_str({s:?}) = {r:?}, expected {id:?}"), case());
+            }
+            if matches!(expect, RefParse::Accept(_)) {
+                // canonical text: text -> id -> text is the identity
+                if ref_display(&r) != s {
+                    l.violation("local-id-text-not-canonical", format!("{s:?} parsed to {r:?} whose text is {:?}", ref_display(&r)), case());
+                }
+                l.class(&format!("id-accepted:{}", kind_of(id)));
+                acc.accept(s);
+                l.sample(|| json!({"text": s, "id": format!("{r:?}")}));
+            } else {
+                l.info("upper-case-hex-accepted");
+                l.class("id-accepted:lenient-hex-case");
+            }
+        }
+        (RefParse::Accept(id), Err(err)) => {
+            l.violation(format!("local-id-rejects-valid:{}", kind_of(id)), format!("from_str({s:?}) = Err({err:?}) but it is the text of {id:?}"), case());
+        }
+        (RefParse::Lenient(_), Err(_)) => {
+            l.info("upper-case-hex-rejected");
+            l.class("id-rejected:lenient-hex-case");
+        }
+    }
+}
+
+fn check_local_id_binary(bytes: &[u8], l: &mut Local) {
+    l.eval();
+    let case = || json!({"kind": "local-id-binary", "hex": mc_core::hex(bytes)});
+    match catch(|| scrypto_decode::<NonFungibleLocalId>(bytes)) {
+        Err(p) => l.violation(format!("local-id-binary-decode-panic@{}", mc_core::last_panic_location()), format!("scrypto_decode panicked: {p}"), case()),
+        Ok(Err(_)) => l.class("binary-rejected"),
+        Ok(Ok(x)) => {
+            check_id_value(&x, l, &case);
+            match scrypto_encode(&x) {
+                Ok(b) if b == bytes => l.class("binary-accepted"),
+                _ => {
+                    l.class("binary-accepted");
+                    l.info("binary-noncanonical-encoding-accepted");
+                }
+            }
+        }
+    }
+}
+
+/// A valid id built from the reference side: constructors, text, SBOR.
+fn check_valid_id(id: &RefId, l: &mut Local, acc: &Acc, texts: &mut BTreeSet<String>, encs: &mut BTreeSet<Vec<u8>>) {
+    let built = match id {
+        RefId::Str(s) => NonFungibleLocalId::string(s.as_str()).ok(),
+        RefId::Int(n) => Some(NonFungibleLocalId::integer(*n)),
+        RefId::Bytes(b) => NonFungibleLocalId::bytes(b.clone()).ok(),
+        RefId::Ruid(b) => Some(NonFungibleLocalId::ruid(*b)),
+    };
+    let case = || json!({"kind": "local-id-value", "id": format!("{id:?}")});
+    let Some(x) = built else {
+        l.eval();
+        l.violation(format!("local-id-constructor-rejects-valid:{}", kind_of(id)), format!("{id:?}"), case());
+        return;
+    };
+    let text = ref_display(id);
+    check_local_id_text(&text, l, acc);
+    match NonFungibleLocalId::from_str(&text) {
+        Ok(y) if y == x => {}
+        other => l.violation(format!("local-id-constructor-vs-text:{}", kind_of(id)), format!("constructor gives {:?}, from_str({text:?}) gives {other:?}", to_ref(&x)), case()),
+    }
+    texts.insert(x.to_string());
+    if let Ok(b) = scrypto_encode(&x) {
+        encs.insert(b);
+    }
+    if let Ok(b) = manifest_encode(&x) {
+        encs.insert(b);
+    }
+}
+
+fn valid_id_set(thorough: bool) -> Vec<RefId> {
+    let mut v = vec![];
+    // strings: every allowed single character, lengths 1..=64, mixed
+    for c in ('a'..='z').chain('A'..='Z').chain('0'..='9').chain(['_']) {
+        v.push(RefId::Str(c.to_string()));
+    }
+    for n in 1..=64usize {
+        v.push(RefId::Str("a".repeat(n)));
+        v.push(RefId::Str((0..n).map(|i| b"_0Zz9A"[i % 6] as char).collect()));
+    }
+    // integers: boundary lattice
+    let mut ints: BTreeSet<u64> = (0..=20u64).collect();
+    for k in 0..64 {
+        let p = 1u64 << k;
+        ints.extend([p, p - 1, p.wrapping_add(1)]);
+    }
+    let mut p = 1u64;
+    for _ in 0..20 {
+        ints.extend([p, p - 1, p + 1]);
+        p = p.saturating_mul(10);
+    }
+    ints.extend([u64::MAX, u64::MAX - 1, 12345678901234567890]);
+    v.extend(ints.into_iter().map(RefId::Int));
+    // bytes: every single byte, lengths 1..=64, patterns
+    for b in 0..=255u8 {
+        v.push(RefId::Bytes(vec![b]));
+    }
+    for n in 1..=64usize {
+        v.push(RefId::Bytes(vec![0; n]));
+        v.push(RefId::Bytes(vec![0xff; n]));
+        v.push(RefId::Bytes((0..n).map(|i| (i * 37 + 11) as u8).collect()));
+    }
+    // ruid: zero, ones, ascending, every single bit
+    v.push(RefId::Ruid([0; 32]));
+    v.push(RefId::Ruid([0xff; 32]));
+    v.push(RefId::Ruid(core::array::from_fn(|i| (i * 8 + 1) as u8)));
+    for bit in 0..256 {
+        let mut b = [0u8; 32];
+        b[bit / 8] = 1 << (bit % 8);
+        v.push(RefId::Ruid(b));
+    }
+    if thorough {
+        for hi in 0..=255u8 {
+            for lo in [0u8, 1, 0x7f, 0x80, 0xff] {
+                v.push(RefId::Bytes(vec![hi, lo]));
+            }
+        }
+        for byte in 0..32 {
+            for val in 0..=255u8 {
+                let mut b = [0x5au8; 32];
+                b[byte] = val;
+                v.push(RefId::Ruid(b));
+            }
+        }
+    }
+    v
+}
+
+fn strings_over(alphabet: &[char], max_len: u32, prefix: &str, suffix: &str, ctx: &Ctx, acc: &Acc) {
+    let n = gen::count_upto(alphabet.len() as u64, max_len);
+    par_range(ctx, n, 8192, |i, l| {
+        let mut buf: Vec<char> = Vec::with_capacity(8);
+        gen::nth_string(alphabet, i, &mut buf);
+        let mut s = String::with_capacity(prefix.len() + suffix.len() + 4 * buf.len());
+        s.push_str(prefix);
+        s.extend(buf.iter());
+        s.push_str(suffix);
+        check_local_id_text(&s, l, acc);
+    });
+}
+
+// ------------------------------------------------------------------------------------------------
+// G1: global ids
+// ------------------------------------------------------------------------------------------------
+
+fn check_global_text(nets: &[Net], ni: usize, s: &str, expect: Option<(&[u8; 30], &RefId)>, must_reject: Option<&str>, l: &mut Local) {
+    l.eval();
+    let net = &nets[ni];
+    let case = || json!({"kind": "global-id-text", "network": ni, "network_name": net.def.logical_name, "text": s, "must_reject": must_reject});
+    let r = match catch(|| NonFungibleGlobalId::try_from_canonical_string(&net.dec, s)) {
+        Ok(r) => r,
+        Err(p) => {
+            l.violation(format!("global-id-parse-panic@{}", mc_core::last_panic_location()), format!("try_from_canonical_string({s:?}) panicked: {p}"), case());
+            return;
+        }
+    };
+    match r {
+        Err(err) => {
+            if let Some((raw, id)) = expect {
+                l.violation("global-id-rejects-valid", format!("{s:?} on {} = Err({err:?}); expected ({}, {id:?})", net.def.logical_name, mc_core::hex(raw)), case());
+            } else {
+                l.class("global-id-rejected");
+            }
+        }
+        Ok(g) => {
+            if let Some(why) = must_reject {
+                l.violation(format!("global-id-accepts:{why}"), format!("{s:?} accepted on {} as {g:?}", net.def.logical_name), case());
+                return;
+            }
+            let raw = g.resource_address().to_vec();
+            let rid = check_id_value(g.local_id(), l, &case);
+            if let Some((eraw, eid)) = expect {
+                if raw != eraw || &rid != eid {
+                    l.violation("global-id-wrong-value", format!("{s:?} parsed to ({}, {rid:?}), expected ({}, {eid:?})", mc_core::hex(&raw), mc_core::hex(eraw)), case());
+                }
+            }
+            // canonical: text -> id -> text (modulo hex / bech32 letter case, which is informational)
+            let shown = g.to_canonical_string(&net.enc);
+            if shown != s {
+                if shown.to_ascii_lowercase() == s.to_ascii_lowercase() {
+                    l.info("global-id-case-variant-accepted");
+                } else {
+                    l.violation("global-id-text-not-canonical", format!("{s:?} parsed to an id whose canonical text is {shown:?}"), case());
+                }
+            }
+            match (scrypto_encode(&g).map(|b| scrypto_decode::<NonFungibleGlobalId>(&b)), manifest_encode(&g).map(|b| manifest_decode::<NonFungibleGlobalId>(&b))) {
+                (Ok(Ok(a)), Ok(Ok(b))) if a == g && b == g => {}
+                other => l.violation("global-id-sbor-roundtrip", format!("{s:?}: {other:?}"), case()),
+            }
+            l.class("global-id-accepted");
+        }
+    }
+}
+
+// ------------------------------------------------------------------------------------------------
+// driver
+// ------------------------------------------------------------------------------------------------
+
+fn bodies(thorough: bool) -> Vec<[u8; 29]> {
+    let mut v: Vec<[u8; 29]> = vec![[0u8; 29], [0xFF; 29], core::array::from_fn(|i| i as u8), core::array::from_fn(|i| (255 - i) as u8)];
+    for bit in 0..29 * 8 {
+        let mut b = [0u8; 29];
+        b[bit / 8] = 1 << (bit % 8);
+        v.push(b);
+    }
+    if thorough {
+        for pos in 0..29 {
+            for val in 1..=255u8 {
+                if val.count_ones() > 1 {
+                    let mut b = [0u8; 29];
+                    b[pos] = val;
+                    v.push(b);
+                }
+            }
+        }
+    }
+    v
+}
+
+const ASC: [u8; 29] = {
+    let mut a = [0u8; 29];
+    let mut i = 0;
+    while i < 29 {
+        a[i] = (i * 9 + 5) as u8;
+        i += 1;
+    }
+    a
+};
+
+fn addr_mutation_alphabet() -> Vec<char> {
+    let mut a: Vec<char> = b32::CHARSET.iter().map(|c| *c as char).collect();
+    a.extend(['1', '_', 'b', 'i', 'o', 'A', 'Q', 'é', ' ']);
+    a
+}
+
+fn id_mutation_alphabet() -> Vec<char> {
+    let mut a: Vec<char> = (0x20u8..0x7f).map(|b| b as char).collect();
+    a.extend(['\0', '\n', 'é', '١', '１', 'Ａ']);
+    a
+}
+
+fn replay(ctx: Ctx, case: Value) -> ! {
+    let nets = networks();
+    let acc = Acc::new();
+    let mut l = Local::new();
+    let kind = case.get("kind").and_then(|k| k.as_str()).unwrap_or("").to_string();
+    let ni = case.get("network").and_then(|n| n.as_u64()).unwrap_or(0) as usize;
+    let text = case.get("text").and_then(|t| t.as_str()).unwrap_or("").to_string();
+    match kind.as_str() {
+        "address" => {
+            let raw: [u8; 30] = mc_core::unhex(case["raw"].as_str().unwrap_or("")).try_into().unwrap_or([0; 30]);
+            check_address(&nets, ni, &raw, &mut l);
+            println!("REPLAY address {} on {}: encode = {:?}", mc_core::hex(&raw), nets[ni].def.logical_name, nets[ni].enc.encode(&raw));
+        }
+        "address-text" => {
+            let orig: Option<[u8; 30]> = case.get("substitution_of").and_then(|x| x.as_str()).and_then(|h| mc_core::unhex(h).try_into().ok());
+            let mr = case.get("must_reject").and_then(|x| x.as_str()).map(|s| s.to_string());
+            check_text_on(&nets, ni, &text, orig.as_ref(), mr.as_deref(), &mut l);
+            println!("REPLAY decode {text:?} on {}: {:?}", nets[ni].def.logical_name, catch(|| nets[ni].dec.validate_and_decode(&text)));
+        }
+        "local-id-text" => {
+            check_local_id_text(&text, &mut l, &acc);
+            println!("REPLAY from_str({text:?}) = {:?}; reference = {:?}", catch(|| NonFungibleLocalId::from_str(&text)), ref_parse_local_id(&text));
+        }
+        "local-id-binary" => {
+            let b = mc_core::unhex(case["hex"].as_str().unwrap_or(""));
+            check_local_id_binary(&b, &mut l);
+            println!("REPLAY scrypto_decode({}) = {:?}", mc_core::hex(&b), catch(|| scrypto_decode::<NonFungibleLocalId>(&b)));
+        }
+        "global-id-text" => {
+            let mr = case.get("must_reject").and_then(|x| x.as_str()).map(|s| s.to_string());
+            check_global_text(&nets, ni, &text, None, mr.as_deref(), &mut l);
+            println!("REPLAY try_from_canonical_string({text:?}) on {} = {:?}", nets[ni].def.logical_name, catch(|| NonFungibleGlobalId::try_from_canonical_string(&nets[ni].dec, &text)));
+        }
+        other => mc_core::machinery_error(&format!("C28 replay: case kind {other:?} is an aggregate law (injectivity / typed try_from sweep); rerun the tier instead")),
+    }
+    ctx.merge(l);
+    ctx.finish(Level::Exploration, "replay of one case", 0, false, Map::new(), &[])
+}
+
+pub fn run(ctx: Ctx) -> ! {
+    if let Err(e) = b32::self_test() {
+        mc_core::machinery_error(&format!("C28: Bech32m reference self-test failed: {e}"));
+    }
+    if let Some(case) = ctx.read_replay_case() {
+        replay(ctx, case);
+    }
+    let thorough = !ctx.quick();
+    let phase = |ctx: &Ctx, next: &str| ctx.note(format!("t={:.1}s: starting {next}", ctx.elapsed_s()));
+    let nets = networks();
+    let acc = Acc::new();
+
+    phase(&ctx, "A0");
+    // ---- A0: typed try_from on raw bytes: all 256 first bytes x 4 bodies, wrong lengths
+    {
+        let mut l = Local::new();
+        let code_valid: Vec<u8> = (0..=255u8).filter(|b| EntityType::from_repr(*b).is_some()).collect();
+        let ref_valid: Vec<u8> = {
+            let mut v: Vec<u8> = ENTS.iter().map(|x| x.byte).collect();
+            v.sort();
+            v
+        };
+        if code_valid != ref_valid {
+            l.info("entity-type-set-differs-from-reference-table");
+        }
+        for first in 0..=255u8 {
+            for body in bodies(false).iter().take(4) {
+                l.eval();
+                let raw = raw_of(first, body);
+                let got = typed_from_slice(&raw);
+                let exp = typed_expect(first);
+                let node = NodeId(raw);
+                let got_node = [
+                    GlobalAddress::try_from(node).is_ok(),
+                    InternalAddress::try_from(node).is_ok(),
+                    ComponentAddress::try_from(node).is_ok(),
+                    ResourceAddress::try_from(node).is_ok(),
+                    PackageAddress::try_from(node).is_ok(),
+                ];
+                let hexs = mc_core::hex(&raw);
+                let got_hex = [
+                    GlobalAddress::try_from_hex(&hexs).is_some(),
+                    InternalAddress::try_from_hex(&hexs).is_some(),
+                    ComponentAddress::try_from_hex(&hexs).is_some(),
+                    ResourceAddress::try_from_hex(&hexs).is_some(),
+                    PackageAddress::try_from_hex(&hexs).is_some(),
+                ];
+                if ent(first).is_none() != EntityType::from_repr(first).is_none() {
+                    continue; // table and code disagree on validity: informational above
+                }
+                for k in 0..5 {
+                    if got[k] != exp[k] || got_node[k] != exp[k] || got_hex[k] != exp[k] {
+                        l.violation(
+                            format!("typed-try_from-class:{}", TYPED_NAMES[k]),
+                            format!("{}::try_from(first byte {first}) slice={} node={} hex={}, expected {}", TYPED_NAMES[k], got[k], got_node[k], got_hex[k], exp[k]),
+                            json!({"kind": "typed-try-from", "raw": hexs}),
+                        );
+                    }
+                }
+                l.class(if exp.iter().any(|x| *x) { "typed-try_from:some-class-accepts" } else { "typed-try_from:all-reject" });
+            }
+        }
+        // wrong lengths
+        for en in ENTS.iter() {
+            for len in [0usize, 1, 29, 31, 60] {
+                l.eval();
+                let mut v = vec![en.byte; len];
+                if len > 0 {
+                    v[0] = en.byte;
+                }
+                if typed_from_slice(&v).iter().any(|x| *x) {
+                    l.violation("typed-try_from-length", format!("a {len}-byte slice starting with {} was accepted", en.byte), json!({"kind": "typed-try-from", "raw": mc_core::hex(&v)}));
+                }
+                l.class("typed-try_from:wrong-length-rejected");
+            }
+        }
+        ctx.merge(l);
+    }
+
+    phase(&ctx, "A1");
+    // ---- A1: every network x every first byte x bodies
+    let bodies_v = bodies(thorough);
+    let nb = bodies_v.len() as u64;
+    let n_items = nets.len() as u64 * 256 * nb;
+    par_range(&ctx, n_items, 64, |i, l| {
+        let body = &bodies_v[(i % nb) as usize];
+        let first = ((i / nb) % 256) as u8;
+        let ni = (i / nb / 256) as usize;
+        // unknown entity bytes: 4 bodies are enough (the encoder looks at the first byte only)
+        if EntityType::from_repr(first).is_none() && (i % nb) >= 4 {
+            return;
+        }
+        let raw = raw_of(first, body);
+        check_address(&nets, ni, &raw, l);
+        if first == 93 && (i % nb) == 2 {
+            l.sample(|| json!({"network": nets[ni].def.logical_name, "raw": mc_core::hex(&raw), "text": nets[ni].enc.encode(&raw).ok()}));
+        }
+    });
+
+    // hrp classes as printed by the real encoder; distinct reference classes must have distinct hrps
+    {
+        let mut l = Local::new();
+        for (ni, net) in nets.iter().enumerate() {
+            for a in ENTS.iter() {
+                for b in ENTS.iter() {
+                    l.eval();
+                    let ha = net.enc.encode(&raw_of(a.byte, &ASC)).ok().and_then(|t| t.rfind('1').map(|p| t[..p].to_string()));
+                    let hb = net.enc.encode(&raw_of(b.byte, &ASC)).ok().and_then(|t| t.rfind('1').map(|p| t[..p].to_string()));
+                    if ha.is_none() || hb.is_none() {
+                        continue; // reported by A1
+                    }
+                    if a.hrp != b.hrp && ha == hb {
+                        l.violation("hrp-shared-by-different-entity-classes", format!("{} and {} both print hrp {ha:?} on {}", a.name, b.name, net.def.logical_name), json!({"kind": "hrp-classes", "network": ni, "a": a.byte, "b": b.byte}));
+                    } else if a.hrp == b.hrp && ha != hb {
+                        l.info("same-reference-class-different-hrp");
+                    }
+                    l.class(if ha == hb { "hrp-class:same" } else { "hrp-class:distinct" });
+                }
+            }
+        }
+        ctx.merge(l);
+    }
+
+    phase(&ctx, "A2a");
+    // ---- A2a: crafted texts: hrp of A (reference table and as printed) x first byte B, on every network
+    let crafted: Vec<(usize, usize)> = (0..nets.len()).flat_map(|n| (0..ENTS.len()).map(move |a| (n, a))).collect();
+    par_for(&ctx, &crafted, |(ni, ai), l| {
+        let net = &nets[*ni];
+        let a = &ENTS[*ai];
+        let suffix: &str = net.def.hrp_suffix.as_ref();
+        let mut hrps = vec![format!("{}_{}", a.hrp, suffix)];
+        if let Ok(t) = net.enc.encode(&raw_of(a.byte, &ASC)) {
+            if let Some(p) = t.rfind('1') {
+                if !hrps.contains(&t[..p].to_string()) {
+                    hrps.push(t[..p].to_string());
+                }
+            }
+        }
+        // hrps of the same entity class on every other network: must be rejected here
+        for other in nets.iter() {
+            let h = format!("{}_{}", a.hrp, other.def.hrp_suffix);
+            if !hrps.contains(&h) {
+                hrps.push(h);
+            }
+        }
+        hrps.push(a.hrp.to_string()); // hrp without any network suffix
+        hrps.push(format!("{}_", a.hrp));
+        for hrp in &hrps {
+            for b in 0..=255u8 {
+                let raw = raw_of(b, &ASC);
+                let text = b32::encode_m(hrp, &raw);
+                // consistency with the encoder of this network; independent part: different reference
+                // class, unknown entity byte => must be rejected
+                let enc_same = matches!(net.enc.encode(&raw), Ok(t) if t == text);
+                let must_reject = match ent(b) {
+                    None if EntityType::from_repr(b).is_none() => Some("unknown-entity-byte"),
+                    Some(eb) if eb.hrp != a.hrp => Some("entity-type-mismatching-hrp"),
+                    Some(_) if !hrp.ends_with(suffix) => Some("hrp-without-this-network-suffix"),
+                    _ => None,
+                };
+                let out = check_text_on(&nets, *ni, &text, None, must_reject, l);
+                match (out, enc_same) {
+                    (TextOutcome::Accepted, true) => l.class("crafted:own-text-accepted"),
+                    (TextOutcome::Rejected, false) => l.class(if must_reject == Some("unknown-entity-byte") { "crafted:unknown-entity-byte-rejected" } else { "crafted:foreign-hrp-or-entity-rejected" }),
+                    (TextOutcome::Rejected, true) => l.violation("address-roundtrip", format!("{text} is what the encoder prints on {} but the decoder rejects it", net.def.logical_name), json!({"kind": "address-text", "network": ni, "text": text})),
+                    (TextOutcome::Accepted, false) => {} // reported as non-canonical / must_reject by check_text_on
+                }
+            }
+        }
+        // wrong checksum constants, empty payload, odd payload lengths, upper case
+        let own = format!("{}_{}", a.hrp, suffix);
+        let raw = raw_of(a.byte, &ASC);
+        for (c, why) in [(b32::BECH32_CONST, "bech32-not-bech32m"), (0, "zero-checksum-constant"), (0x3fff_ffff, "other-checksum-constant")] {
+            check_text_on(&nets, *ni, &b32::encode_with_const(&own, &raw, c), None, Some(why), l);
+            l.class("crafted:wrong-checksum-constant");
+        }
+        check_text_on(&nets, *ni, &b32::encode_m(&own, &[]), None, Some("empty-payload"), l);
+        for len in [1usize, 2, 29, 31, 32, 60] {
+            let mut v = vec![0x11u8; len];
+            v[0] = a.byte;
+            check_text_on(&nets, *ni, &b32::encode_m(&own, &v), None, None, l);
+            l.class("crafted:payload-length!=30");
+        }
+        let good = b32::encode_m(&own, &raw);
+        check_text_on(&nets, *ni, &good.to_ascii_uppercase(), Some(&raw), None, l);
+        l.class("crafted:all-upper-case");
+    });
+
+    phase(&ctx, "A2b");
+    // ---- A2b: single-point mutations of one text per (network, entity type)
+    let alpha = addr_mutation_alphabet();
+    par_for(&ctx, &crafted, |(ni, ai), l| {
+        let raw = raw_of(ENTS[*ai].byte, &ASC);
+        let Ok(text) = nets[*ni].enc.encode(&raw) else { return };
+        char_mutations(&text, &alpha, &mut |t, subst| {
+            let out = check_text_on(&nets, *ni, t, if subst { Some(&raw) } else { None }, None, l);
+            l.class(match (subst, out) {
+                (true, TextOutcome::Rejected) => "mutation:substitution-rejected",
+                (true, TextOutcome::Accepted) => "mutation:substitution-accepted-same-bytes",
+                (false, TextOutcome::Rejected) => "mutation:indel-rejected",
+                (false, TextOutcome::Accepted) => "mutation:indel-accepted-canonical",
+            });
+        });
+    });
+
+    phase(&ctx, "A2c (thorough)");
+    // ---- A2c (thorough): every double substitution in the data part, one text per entity type (simulator)
+    let mut double_subst = 0u64;
+    if thorough {
+        let sim = 2usize;
+        let cs: Vec<char> = b32::CHARSET.iter().map(|c| *c as char).collect();
+        for en in ENTS.iter() {
+            let raw = raw_of(en.byte, &ASC);
+            let Ok(text) = nets[sim].enc.encode(&raw) else { continue };
+            let sep = text.rfind('1').unwrap() + 1;
+            let chars: Vec<char> = text.chars().collect();
+            let n = chars.len() - sep;
+            let pairs: Vec<(usize, usize)> = (0..n).flat_map(|i| (i + 1..n).map(move |j| (i, j))).collect();
+            double_subst += pairs.len() as u64 * 31 * 31;
+            par_for(&ctx, &pairs, |(i, j), l| {
+                let mut buf = chars.clone();
+                let mut s = String::with_capacity(chars.len());
+                for a in &cs {
+                    if *a == chars[sep + i] {
+                        continue;
+                    }
+                    buf[sep + i] = *a;
+                    for b in &cs {
+                        if *b == chars[sep + j] {
+                            continue;
+                        }
+                        buf[sep + j] = *b;
+                        s.clear();
+                        s.extend(buf.iter());
+                        let out = check_text_on(&nets, sim, &s, Some(&raw), None, l);
+                        l.class(if out == TextOutcome::Rejected { "mutation:double-substitution-rejected" } else { "mutation:double-substitution-accepted-same-bytes" });
+                    }
+                }
+            });
+        }
+    }
+
+    phase(&ctx, "L1a");
+    // ---- L1a: all strings up to a length over the bracket alphabet
+    let alpha_ids: Vec<char> = vec!['<', '>', '#', '[', ']', '{', '}', '0', '1', '9', 'a', 'f', 'g', '_', '-', 'é', '+'];
+    let max_len = ctx.pick(5, 6);
+    strings_over(&alpha_ids, max_len, "", "", &ctx, &acc);
+    phase(&ctx, "L1b");
+    // ---- L1b: per-kind families: fixed brackets, richer inner alphabets
+    let fam_len = ctx.pick(4, 6);
+    strings_over(&['0', '1', '2', '9', '+', '-', '_', ' ', 'a', 'é', '١', '.', 'x'], fam_len, "#", "#", &ctx, &acc);
+    strings_over(&['0', '1', '9', 'a', 'f', 'A', 'F', 'g', '-', ' ', 'é'], fam_len, "[", "]", &ctx, &acc);
+    strings_over(&['a', 'Z', '0', '_', '-', 'é', ' ', '<', '>', '#', ':'], fam_len, "<", ">", &ctx, &acc);
+    if thorough {
+        // digits only, up to 8 digits: every canonical / non-canonical numeral of that size
+        strings_over(&['0', '1', '2', '3', '4', '5', '6', '7', '8', '9'], 7, "#", "#", &ctx, &acc);
+    }
+
+    phase(&ctx, "L1c");
+    // ---- L1c: boundary numerals, long contents, RUID forms, single-point mutations of valid texts
+    {
+        let mut texts: Vec<String> = vec![];
+        let big = [
+            "18446744073709551614", "18446744073709551615", "18446744073709551616", "18446744073709551617", "18446744073709551625", "18446744073709551715",
+            "28446744073709551615", "99999999999999999999", "100000000000000000000", "184467440737095516150", "340282366920938463463374607431768211455",
+            "340282366920938463463374607431768211456", "36893488147419103231", "36893488147419103232", "9223372036854775807", "9223372036854775808", "4294967296", "0", "1", "10",
+        ];
+        for b in big {
+            for pre in ["", "0", "00", "+", "-", " ", "0x", "_"] {
+                for post in ["", " ", "0", "_", ".0", "e0"] {
+                    texts.push(format!("#{pre}{b}{post}#"));
+                }
+            }
+        }
+        texts.push(format!("#{}#", "9".repeat(40)));
+        texts.push(format!("#{}1#", "0".repeat(40)));
+        for s in ["#١٢٣#", "#１#", "#1１#", "##", "#", "###", "#1##", "##1#", "#1#2#", "# #", "#\0#", "#1\0#", "#-0#", "#+0#", "#00#", "#0_0#"] {
+            texts.push(s.to_string());
+        }
+        for n in 0..=70usize {
+            texts.push(format!("<{}>", "a".repeat(n)));
+            texts.push(format!("<{}>", "_Z9".repeat(n)));
+            texts.push(format!("[{}]", "ab".repeat(n)));
+            texts.push(format!("[{}]", "AB".repeat(n)));
+            texts.push(format!("[{}]", "a".repeat(n)));
+            texts.push(format!("#{}#", "1".repeat(n)));
+        }
+        for c in (0u32..0x80).chain([0xe9, 0x661, 0xff11, 0xff21, 0x1f600]) {
+            if let Some(c) = char::from_u32(c) {
+                texts.push(format!("<{c}>"));
+                texts.push(format!("<a{c}>"));
+                texts.push(format!("#{c}#"));
+                texts.push(format!("[{c}{c}]"));
+                texts.push(format!("[0{c}]"));
+            }
+        }
+        let ruids = [
+            "{0000000000000000-0000000000000000-0000000000000000-0000000000000000}".to_string(),
+            "{ffffffffffffffff-ffffffffffffffff-ffffffffffffffff-ffffffffffffffff}".to_string(),
+            "{0123456789abcdef-fedcba9876543210-1111111111111111-aaaaaaaaaaaaaaaa}".to_string(),
+        ];
+        for r in &ruids {
+            texts.push(r.clone());
+            texts.push(r.to_ascii_uppercase());
+            texts.push(r.replace('-', ""));
+            texts.push(r.replace('-', "_"));
+            texts.push(r.replace('-', "--"));
+        }
+        // hyphens moved: 4 groups with lengths summing to 64 around the documented 16/16/16/16
+        for a in 14..=18usize {
+            for b in 14..=18usize {
+                for c in 14..=18usize {
+                    let d = 64usize.wrapping_sub(a + b + c);
+                    if d <= 64 {
+                        texts.push(format!("{{{}-{}-{}-{}}}", "1".repeat(a), "2".repeat(b), "3".repeat(c), "4".repeat(d)));
+                    }
+                }
+            }
+        }
+        // non-ASCII / multi-byte characters placed so that byte and char counts differ
+        texts.push(format!("{{{}-{}-{}-{}}}", "é".repeat(16), "1".repeat(16), "1".repeat(16), "1".repeat(16)));
+        texts.push(format!("{{{}é-{}-{}-{}}}", "1".repeat(15), "1".repeat(16), "1".repeat(16), "1".repeat(16)));
+        texts.push(format!("{{{}é-{}-{}-{}-}}", "1".repeat(15), "1".repeat(16), "1".repeat(16), "1".repeat(14)));
+        texts.push(format!("{{{}-{}-{}-{}é-}}", "1".repeat(16), "1".repeat(16), "1".repeat(16), "1".repeat(13)));
+        let malpha = id_mutation_alphabet();
+        let mut seeds: Vec<String> = vec!["<abc_123>".into(), "#12345#".into(), "#0#".into(), "#18446744073709551615#".into(), "[deadbeef]".into(), "[00]".into(), "<a>".into()];
+        seeds.extend(ruids.iter().cloned());
+        for s in &seeds {
+            char_mutations(s, &malpha, &mut |t, _| texts.push(t.to_string()));
+        }
+        par_for(&ctx, &texts, |t, l| check_local_id_text(t, l, &acc));
+    }
+
+    phase(&ctx, "L1d");
+    // ---- L1d: valid ids from the reference side: constructors, text, SBOR, injectivity
+    let ids = valid_id_set(thorough);
+    {
+        let mut l = Local::new();
+        let mut texts = BTreeSet::new();
+        let mut encs = BTreeSet::new();
+        let distinct: BTreeSet<&RefId> = ids.iter().collect();
+        for id in &ids {
+            check_valid_id(id, &mut l, &acc, &mut texts, &mut encs);
+        }
+        if texts.len() != distinct.len() {
+            l.violation("local-id-text-injective", format!("{} distinct texts for {} distinct ids", texts.len(), distinct.len()), json!({"kind": "aggregate"}));
+        }
+        if encs.len() != 2 * distinct.len() {
+            l.violation("local-id-sbor-injective", format!("{} distinct SBOR encodings (scrypto+manifest) for {} distinct ids", encs.len(), distinct.len()), json!({"kind": "aggregate"}));
+        }
+        // constructors reject invalid content
+        for n in [0usize, 65, 66, 100] {
+            l.eval();
+            if NonFungibleLocalId::string("a".repeat(n)).is_ok() || NonFungibleLocalId::bytes(vec![1u8; n]).is_ok() {
+                l.violation("local-id-constructor-accepts-invalid-length", format!("length {n}"), json!({"kind": "aggregate"}));
+            }
+            l.class("constructor-rejects-invalid-length");
+        }
+        for c in (0u32..0x80).chain([0xe9, 0x661]) {
+            let c = char::from_u32(c).unwrap();
+            l.eval();
+            let ok = NonFungibleLocalId::string(c.to_string()).is_ok();
+            let exp = c.is_ascii_alphanumeric() || c == '_';
+            if ok != exp {
+                l.violation("local-id-constructor-charset", format!("string id {c:?}: accepted={ok}, expected {exp}"), json!({"kind": "aggregate"}));
+            }
+            l.class(if ok { "constructor-accepts-char" } else { "constructor-rejects-char" });
+        }
+        ctx.merge(l);
+    }
+
+    phase(&ctx, "L1e");
+    // ---- L1e: single-point mutations of binary encodings
+    {
+        let seeds: Vec<Vec<u8>> = [
+            RefId::Str("a".into()),
+            RefId::Str("abc_XYZ09".into()),
+            RefId::Str("z".repeat(64)),
+            RefId::Int(0),
+            RefId::Int(u64::MAX),
+            RefId::Int(0x0102030405060708),
+            RefId::Bytes(vec![0]),
+            RefId::Bytes(vec![0xde, 0xad, 0xbe, 0xef]),
+            RefId::Bytes(vec![0x7f; 64]),
+            RefId::Ruid([0; 32]),
+            RefId::Ruid(core::array::from_fn(|i| i as u8)),
+        ]
+        .iter()
+        .map(|id| {
+            let x = match id {
+                RefId::Str(s) => NonFungibleLocalId::string(s.as_str()).unwrap(),
+                RefId::Int(n) => NonFungibleLocalId::integer(*n),
+                RefId::Bytes(b) => NonFungibleLocalId::bytes(b.clone()).unwrap(),
+                RefId::Ruid(b) => NonFungibleLocalId::ruid(*b),
+            };
+            scrypto_encode(&x).unwrap()
+        })
+        .collect();
+        let quick_alpha: Vec<u8> = vec![0x00, 0x01, 0x02, 0x03, 0x04, 0x08, 0x20, 0x40, 0x41, 0x5c, 0x7f, 0x80, 0xc0, 0xc1, 0xff, b'a', b'-', b'_'];
+        let alpha: &[u8] = if thorough { &gen::ALL_BYTES } else { &quick_alpha };
+        par_for(&ctx, &seeds, |seed, l| {
+            gen::mutations(seed, alpha, |m| check_local_id_binary(m, l));
+        });
+    }
+
+    phase(&ctx, "G1");
+    // ---- G1: global ids
+    {
+        let local_ids: Vec<RefId> = vec![
+            RefId::Str("a".into()),
+            RefId::Str("Hello_World_9".into()),
+            RefId::Int(0),
+            RefId::Int(1),
+            RefId::Int(u64::MAX),
+            RefId::Bytes(vec![0xab]),
+            RefId::Bytes(vec![1; 64]),
+            RefId::Ruid(core::array::from_fn(|i| (255 - i) as u8)),
+        ];
+        let res_bodies = [[0u8; 29], ASC];
+        let items: Vec<(usize, u8, usize, usize)> = (0..nets.len())
+            .flat_map(|n| [93u8, 154].into_iter().flat_map(move |b| (0..2usize).flat_map(move |bi| (0..8usize).map(move |li| (n, b, bi, li)))))
+            .collect();
+        par_for(&ctx, &items, |(ni, b, bi, li), l| {
+            let net = &nets[*ni];
+            let raw = raw_of(*b, &res_bodies[*bi]);
+            let id = &local_ids[*li];
+            let suffix: &str = net.def.hrp_suffix.as_ref();
+            // the global id value, built through the public constructors
+            let Ok(res) = ResourceAddress::try_from(raw) else {
+                l.violation("typed-try_from-class:ResourceAddress", format!("resource byte {b} rejected"), json!({"kind": "typed-try-from", "raw": mc_core::hex(&raw)}));
+                return;
+            };
+            let lid = NonFungibleLocalId::from_str(&ref_display(id)).ok();
+            let Some(lid) = lid else { return }; // reported by L1
+            let g = NonFungibleGlobalId::new(res, lid);
+            let text = g.to_canonical_string(&net.enc);
+            let addr_text = net.enc.encode(&raw).unwrap_or_default();
+            let expected_text = format!("{addr_text}:{}", ref_display(id));
+            l.eval();
+            if text != expected_text {
+                l.violation("global-id-display", format!("to_canonical_string = {text:?}, expected {expected_text:?}"), json!({"kind": "global-id-text", "network": ni, "text": expected_text}));
+            }
+            check_global_text(&nets, *ni, &expected_text, Some((&raw, id)), None, l);
+            // other networks
+            for (mi, _) in nets.iter().enumerate() {
+                if mi != *ni {
+                    check_global_text(&nets, mi, &expected_text, None, Some("text-of-another-network"), l);
+                }
+            }
+            if *bi == 1 {
+                let lt = ref_display(id);
+                // not a resource address
+                for en in ENTS.iter().filter(|x| x.cls != Cls::Resource) {
+                    if let Ok(t) = net.enc.encode(&raw_of(en.byte, &ASC)) {
+                        check_global_text(&nets, *ni, &format!("{t}:{lt}"), None, Some("address-is-not-a-resource"), l);
+                    }
+                    // resource hrp with a foreign entity byte, valid checksum
+                    let t = b32::encode_m(&format!("resource_{suffix}"), &raw_of(en.byte, &ASC));
+                    check_global_text(&nets, *ni, &format!("{t}:{lt}"), None, Some("resource-hrp-with-foreign-entity-byte"), l);
+                }
+                // structure
+                for (t, why) in [
+                    (format!("{addr_text}{lt}"), "missing-colon"),
+                    (format!("{addr_text}::{lt}"), "double-colon"),
+                    (format!("{addr_text}:{lt}:"), "trailing-colon"),
+                    (format!(":{addr_text}:{lt}"), "leading-colon"),
+                    (format!("{addr_text}:{lt}:{lt}"), "three-parts"),
+                    (format!("{addr_text}:"), "empty-local-id"),
+                    (format!(":{lt}"), "empty-address"),
+                    (format!("{lt}:{addr_text}"), "swapped-parts"),
+                    (format!(" {addr_text}:{lt}"), "leading-space"),
+                    (format!("{addr_text}:{lt} "), "trailing-space"),
+                    (format!("{addr_text} : {lt}"), "spaces-around-colon"),
+                    (format!("{addr_text};{lt}"), "semicolon"),
+                    (format!("{addr_text}:{}", &lt[..lt.len() - 1]), "local-id-truncated"),
+                    (format!("{}:{lt}", &addr_text[..addr_text.len() - 1]), "address-truncated"),
+                    (String::new(), "empty"),
+                    (":".to_string(), "only-colon"),
+                ] {
+                    check_global_text(&nets, *ni, &t, None, Some(why), l);
+                }
+                // case variants: informational when accepted
+                check_global_text(&nets, *ni, &expected_text.to_ascii_uppercase(), None, None, l);
+            }
+        });
+    }
+
+    phase(&ctx, "finish");
+    // ---- finish
+    let classes = ctx.classes();
+    let get = |k: &str| classes.get(k).copied().unwrap_or(0);
+    let addr_rt = get("address-roundtrip-ok");
+    let accepted_texts = acc.distinct_accepted();
+    let gid_ok = get("global-id-accepted");
+    // evaluations whose text had a recognised bracket pair (got past the first rejection branch)
+    let bracketed: u64 = classes.iter().filter(|(k, _)| (k.starts_with("id-accepted:") || k.starts_with("id-rejected:")) && !k.ends_with(":unknown-brackets") && !k.ends_with(":too-short")).map(|(_, v)| *v).sum();
+    let nontrivial = addr_rt + accepted_texts + gid_ok;
+    let mut cov = Map::new();
+    cov.insert("networks".into(), json!(nets.iter().map(|n| format!("{}({})", n.def.logical_name, n.def.hrp_suffix)).collect::<Vec<_>>()));
+    cov.insert("entity_types".into(), json!(ENTS.len()));
+    cov.insert("bodies_per_entity_type".into(), json!(bodies_v.len()));
+    cov.insert("address_roundtrips".into(), json!(addr_rt));
+    cov.insert("cross_network_decodes".into(), json!(get("other-network-rejected")));
+    cov.insert("local_id_alphabet".into(), json!(alpha_ids.iter().collect::<String>()));
+    cov.insert("local_id_max_len".into(), json!(max_len));
+    cov.insert("local_id_family_inner_max_len".into(), json!(fam_len));
+    cov.insert("local_id_texts_past_bracket_recognition".into(), json!(bracketed));
+    cov.insert("local_id_distinct_accepted_texts".into(), json!(accepted_texts));
+    cov.insert("valid_ids_from_reference".into(), json!(ids.len()));
+    cov.insert("global_id_texts_accepted".into(), json!(gid_ok));
+    cov.insert("double_substitutions".into(), json!(double_subst));
+    ctx.finish(
+        Level::Exploration,
+        "addresses: every network (9 built-in + 2 custom) x every first byte x bodies (4 patterns + every single-bit body; thorough: + every single-byte body), every hrp-class x first-byte crafted Bech32m text on every network, every single-character substitution/insertion/deletion of one text per (network, entity type) (thorough: every double substitution in the data part, simulator); local ids: every string up to the stated length over the stated alphabet, per-kind families, boundary numerals, mutations; a case is one input text / address / id; non-trivial = (network,address) pairs that round-tripped + distinct local-id texts accepted + global-id texts accepted",
+        nontrivial,
+        true,
+        cov,
+        &[
+            "network definitions have pairwise distinct, lower-case, Bech32-valid hrp suffixes",
+            "hrp class names are not fixed by the statement: a difference from the reference table is informational; only 'ends with the network suffix' and 'distinct entity classes have distinct hrps' are demanded",
+            "upper-case hex in [..]/{..} ids and all-upper-case Bech32m text are not decided by the statement (informational)",
+            "the low-level decoder returning payloads of length != 30 is informational; typed addresses must reject them",
+        ],
+    )
 }
